@@ -26,13 +26,17 @@ def corruptions():
     yield "arbitrary text", "lorem ipsum (dolor sit & amet\n'unterminated string\n&&& ;;; !!\n"
     yield "leading ampersand", "& call nothing()\n"
     yield "spliced", VICTIM[: len(VICTIM) // 2] + GOOD["src/z_last.f90"]
+    yield "ends inside a !> documentation block", VICTIM.replace("end module middle\n", "  !> documents a routine that was cut off\n  !> second line\n")
+    yield "complete, then a dangling !> documentation block", VICTIM + "!> trailing documentation with nothing after it\n"
+    yield "ends inside a !| documentation block", VICTIM.replace("end module middle\n", "  !| alternative block\n  ! goes on\n")
+    yield "ends on a continuation line", VICTIM.replace("end module middle\n", "  subroutine dangling(a, &\n")
     yield "undecodable bytes", b"module bad\n  character :: c = '\xff\xfe\xfa'\nend module bad\n\x80\x81"
 
 
 MUST_REJECT = {"unbalanced END", "END at file level first", "stray END between two units"}
 
 
-class Timeout(Exception):
+class Timeout(BaseException):
     pass
 
 
@@ -126,7 +130,7 @@ def markup_cases():
 
 
 def search():
-    hit = markup_cases() or leak_cases() or preprocessor_exit_case()
+    hit = markup_cases() or leak_cases() or preprocessor_exit_case() or command_line_run()
     if hit:
         return hit
     try:
@@ -259,4 +263,41 @@ def preprocessor_exit_case():
             os.chdir(cwd)
     if not {"a_first.f90", "z_last.f90"} <= set(names):
         return {"confirmed": True, "input": {"file": files["src/m_loop.F90"]}, "actual": names, "expected": "a_first.f90 and z_last.f90 documented", "how": "Project(...) with the default preprocessor"}
+    return None
+
+
+def command_line_run():
+    """the defaults a user gets are those of the command line: `ford project.md` with nothing else on it, one source file truncated in the middle of a module - the file is
+    reported and skipped, the run goes on and the other files are documented (also when the project file itself asks for `dbg: true`)"""
+    import sys
+    init = loader.import_init()
+    fp = loader.import_repo("ford.fortran_project")
+    for extra in ("", "dbg: true\n"):
+        files = {"src/a_good.f90": "module a_good\n  integer :: n\nend module a_good\n", "src/b_bad.f90": "module b_bad\n  integer :: m\ncontains\n  subroutine cut(\n",
+                 "src/c_good.f90": "module c_good\n  use a_good\nend module c_good\n", "proj.md": "---\nproject: demo\npreprocess: false\nsrc_dir: ./src\n" + extra + "---\n\nText\n"}
+        with realrun.project_dir(files) as d:
+            cwd, argv = os.getcwd(), sys.argv
+            os.chdir(d)
+            sys.argv = ["ford", os.path.join(d, "proj.md")]
+            out = io.StringIO()
+            realrun.reset_names()
+            import ford.console as fc
+            old = getattr(fc.console, "file", None)
+            try:
+                with contextlib.redirect_stdout(out), contextlib.redirect_stderr(out), watchdog(60):
+                    with contextlib.suppress(Exception):
+                        fc.console.file = out
+                    data, docs = init.initialize()
+                    proj = fp.Project(data)
+                got = sorted(m.name for m in proj.modules)
+            except BaseException as e:
+                got = f"{type(e).__name__}: {str(e)[:200]}"
+            finally:
+                with contextlib.suppress(Exception):
+                    fc.console.file = old
+                os.chdir(cwd)
+                sys.argv = argv
+        if got != ["a_good", "c_good"] or "b_bad.f90" not in out.getvalue():
+            return {"confirmed": True, "input": {"files": files, "command line": "ford proj.md"}, "actual": {"modules": got, "b_bad.f90 named in the output": "b_bad.f90" in out.getvalue()},
+                    "expected": {"modules": ["a_good", "c_good"], "b_bad.f90 named in the output": True}, "how": "ford.initialize() with a real argv, then Project(settings): the truncated file is reported and skipped"}
     return None
